@@ -13,9 +13,9 @@ import (
 	"archive/zip"
 	"bufio"
 	"bytes"
-	"io"
 	"encoding/json"
 	"fmt"
+	"io"
 	"os"
 	"os/exec"
 	"path/filepath"
@@ -121,7 +121,24 @@ var c07Ops = []c07Op{
 			*log = append(*log, fmt.Sprintf("img=%dx%d", info.Width, info.Height))
 		}
 	}},
+	// ONE properties struct the caller owns and refills for every document it labels
+	{"SetDocumentProperties(caller's one struct <- Title T1, Keywords K1)", func(d *document.Document, log *[]string) {
+		*c07Props = document.DocumentProperties{Title: "T1", Keywords: "K1", Creator: "C", Created: time.Unix(1700000000, 0).UTC(), LastModified: time.Unix(1700000100, 0).UTC()}
+		d.SetDocumentProperties(c07Props)
+	}},
+	{"SetDocumentProperties(caller's one struct <- Title T2, Subject S2)", func(d *document.Document, log *[]string) {
+		*c07Props = document.DocumentProperties{Title: "T2", Subject: "S2", Creator: "C", Created: time.Unix(1700000000, 0).UTC(), LastModified: time.Unix(1700000100, 0).UTC()}
+		d.SetDocumentProperties(c07Props)
+	}},
+	{"SetAuthor(A) + GetDocumentProperties", func(d *document.Document, log *[]string) {
+		d.SetAuthor("A")
+		if p, err := d.GetDocumentProperties(); err == nil && p != nil {
+			*log = append(*log, fmt.Sprintf("props=%s/%s/%s/%s", p.Title, p.Subject, p.Keywords, p.Creator))
+		}
+	}},
 }
+
+var c07Props = &document.DocumentProperties{}
 
 // c07SharedPath is a file path private to this process (parallel shard processes must not share it).
 func c07SharedPath() string {
@@ -129,9 +146,10 @@ func c07SharedPath() string {
 }
 
 // Document origins: distinct documents may descend from a common source.
-//   0 new       document.New()
-//   1 opened    OpenFromMemory of the same bytes (a library-built package with header, footer and picture)
-//   2 rendered  RenderTemplateToDocument from one shared template whose base document has those three relationships
+//
+//	0 new       document.New()
+//	1 opened    OpenFromMemory of the same bytes (a library-built package with header, footer and picture)
+//	2 rendered  RenderTemplateToDocument from one shared template whose base document has those three relationships
 var c07OriginNames = []string{"new", "opened", "rendered", "new(files)"}
 
 // alphabets per origin (indices into c07Ops)
@@ -139,7 +157,7 @@ var c07Alphabet = [][]int{
 	{0, 1, 2, 3, 4, 5, 6, 7, 8, 9, 10, 13},
 	{0, 1, 3, 6, 10, 11, 16, 17, 14, 15},
 	{0, 1, 3, 6, 13, 11, 16, 17, 14, 15},
-	{0, 9, 18, 19}, // origin 3: new documents, pictures from one rewritten path (sequential part only)
+	{0, 9, 18, 19, 20, 21, 22}, // origin 3: new documents, pictures from one rewritten path, one properties struct refilled per document (sequential part only)
 }
 
 func c07BaseDoc() *document.Document {
@@ -1012,7 +1030,6 @@ func runC07(r *rep.Run) {
 	}
 	runRacePass(r, "C07", "two goroutines working on distinct documents")
 }
-
 
 var facetCache = map[string]map[string]string{}
 
